@@ -66,6 +66,9 @@ class Gen:
         self.site = 0
         self.funcs = {}
         self.fresh_id = 0
+        self.used_cond = set()
+        self.used_names = set()
+        self.banned = set()
 
     # {{{ expressions
 
@@ -274,7 +277,17 @@ class Gen:
         names = list(pool)
         if self.weird_names and pool is LOCAL_NAMES and rng.random() < 0.08:
             names = WEIRD_LOCALS
-        return rng.choice(names)
+        # names the builder may already have issued (or may issue) are off limits once it
+        # has been asked: fresh_var_name only promises freshness w.r.t. names in use *then*
+        ok = [n for n in names if n not in self.banned]
+        n = rng.choice(ok or ["zz_plain"])
+        self.used_names.add(n)
+        return n
+
+    def ban_like(self, prefix):
+        for n in [prefix] + [f"{prefix}_{i}" for i in range(6)]:
+            if n not in self.used_names:
+                self.banned.add(n)
 
     def s(self, *exprs):
         """String mode flag: only when every operand can be written as source."""
@@ -312,9 +325,17 @@ class Gen:
     def op_assign_bool(self, sc):
         lhs = self.rng.choice(BOOL_NAMES)
         if lhs.startswith("<cond>"):
-            # "<cond>NAME ... May not be re-defined": one definition per name
-            self.fresh_id += 1
-            lhs = f"{lhs}{self.fresh_id}"
+            # "<cond>NAME ... May not be re-defined": one definition per name.
+            # Some look exactly like the names CodeBuilder.if_ generates.
+            cands = [n for n in ("<cond>", "<cond>_0", "<cond>_1", "<cond>_2")
+                     if n not in self.used_cond and n not in self.banned]
+            if cands and self.rng.random() < 0.6:
+                lhs = self.rng.choice(cands)
+            else:
+                self.fresh_id += 1
+                lhs = f"{lhs}{self.fresh_id}"
+            self.used_cond.add(lhs)
+            self.used_names.add(lhs)
         sc.kill(lhs)
         rhs = self.bool_expr(sc, 1)
         sc.bools.append(lhs)
@@ -438,8 +459,10 @@ class Gen:
             lhss = []
             for _ in range(nres):
                 n = self.new_local(sc, LOCAL_NAMES)
+                tries = 0
                 while n in lhss:
-                    n = rng.choice(LOCAL_NAMES)
+                    tries += 1
+                    n = self.new_local(sc, LOCAL_NAMES) if tries < 20 else f"res_{len(lhss)}"
                 lhss.append(n)
             for n in lhss:
                 sc.kill(n)
@@ -513,8 +536,19 @@ class Gen:
                 new = [self.op_call_stmt(sc, persist)]
             elif r < 0.79:
                 new = [self.op_yield(sc)]
+                if rng.random() < 0.25:
+                    # the user asks the builder for a fresh name and uses it
+                    self.fresh_id += 1
+                    alias = f"$fresh{self.fresh_id}"
+                    rhs = self.num_expr(sc, 1)
+                    pref = rng.choice(["temp", "tmp", "x", "y", "<cond>"])
+                    self.ban_like(pref)
+                    new = [["fresh", pref, alias],
+                           ["assign", alias, None, rhs, [], 0]] + new
+                    sc.nums.append(alias)
             elif r < 0.93 and depth < 3:
                 cond = self.bool_expr(sc, rng.choice([0, 1, 1, 2]))
+                self.ban_like("<cond>")
                 sc_then = sc.copy()
                 nb = [max(1, min(budget[0], rng.randint(1, 4)))]
                 budget[0] -= nb[0]
@@ -597,6 +631,9 @@ class Gen:
                         body.append(["assign", a, ["var", "i"], ["*", ["num", 0.5], ["var", "i"]],
                                      [["i", ["num", 0], ["num", l]]], 0])
             budget = [rng.randint(1, self.max_ops)]
+            self.used_cond = set()
+            self.used_names = set()
+            self.banned = set()
             body += self.body(sc, persist, names, name, budget, 0, False)
             # advance time at the end of most phases so that t_end-bounded runs terminate
             if rng.random() < 0.8:
@@ -664,10 +701,55 @@ def _arg(e, s):
     return to_pym(e)
 
 
-def replay_ops(cb, ops, obs, errs):
+def subst_names(e, amap):
+    if not amap or not isinstance(e, list):
+        return e
+    k = e[0]
+    if k == "var":
+        return ["var", amap.get(e[1], e[1])]
+    if k in ("num", "cnum", "bool"):
+        return e
+    if k == "cmp":
+        return ["cmp", e[1], subst_names(e[2], amap), subst_names(e[3], amap)]
+    if k == "call":
+        return ["call", e[1], [subst_names(x, amap) for x in e[2]],
+                {n: subst_names(v, amap) for n, v in (e[3] if len(e) > 3 else {}).items()}]
+    return [k] + [subst_names(x, amap) for x in e[1:]]
+
+
+def subst_op(op, amap):
+    if not amap:
+        return op
+    k = op[0]
+    if k == "assign":
+        return ["assign", amap.get(op[1], op[1]), subst_names(op[2], amap) if op[2] is not None else None,
+                subst_names(op[3], amap),
+                [[c, subst_names(lo, amap), subst_names(hi, amap)] for c, lo, hi in op[4]]] + list(op[5:])
+    if k == "call":
+        return ["call", [amap.get(n, n) for n in op[1]], op[2], [subst_names(a, amap) for a in op[3]],
+                {n: subst_names(v, amap) for n, v in op[4].items()}] + list(op[5:])
+    if k == "if":
+        return ["if", subst_names(op[1], amap)] + list(op[2:])
+    if k == "yield":
+        return ["yield", subst_names(op[1], amap), op[2], subst_names(op[3], amap)] + list(op[4:])
+    return op
+
+
+def replay_ops(cb, ops, obs, errs, amap=None):
     from dagrt.expression import parse
+    if amap is None:
+        amap = {}
     for op in ops:
         k = op[0]
+        if k == "fresh":
+            name = cb.fresh_var_name(op[1])
+            if obs is not None:
+                if name in obs.user_names:
+                    obs.collisions.append(name)
+                obs.issued.append(name)
+            amap[op[2]] = name
+            continue
+        op = subst_op(op, amap)
         s = op[-1] if k in ("assign", "call", "if", "yield") else 0
         if obs is not None:
             op_names(op, obs.user_names)
@@ -700,11 +782,11 @@ def replay_ops(cb, ops, obs, errs):
                     obs.issued.append(nm)
                     if nm in obs.user_names:
                         obs.collisions.append(nm)
-                replay_ops(cb, then, obs, errs)
-            replay_ops(cb, between, obs, errs)
+                replay_ops(cb, then, obs, errs, amap)
+            replay_ops(cb, between, obs, errs, amap)
             if els is not None:
                 with cb.else_():
-                    replay_ops(cb, els, obs, errs)
+                    replay_ops(cb, els, obs, errs, amap)
         elif k == "yield":
             _, expr, comp, time, time_id = op[:5]
             cb.yield_state(_arg(expr, s), comp, to_pym(time), time_id)
@@ -737,7 +819,9 @@ def build(script, obs=None):
     phases = []
     for ph in script["phases"]:
         with CodeBuilder(ph["name"]) as cb:
-            replay_ops(cb, ph["body"], obs, errs)
+            replay_ops(cb, ph["body"], obs, errs, {})
+            if obs is not None:
+                obs.aliases = getattr(obs, "aliases", {})
         phases.append(cb.as_execution_phase(ph["next"]))
     return DAGCode.from_phases_list(phases, script["initial"])
 
